@@ -853,8 +853,41 @@ func SameRegion(li *LockInfo, a, b ssa.Instruction, lock string) bool {
 		return false
 	}
 	isB := func(in ssa.Instruction) bool { return in == b }
-	reach, _ := CanReachAvoiding(li.fn, a, unlockPred(lock), isB)
-	return !reach
+	// an unlock u with a path a → u (not through b) and a path u → b splits the region
+	for _, u := range findInstrs(li.fn, unlockPred(lock)) {
+		isU := func(in ssa.Instruction) bool { return in == u }
+		if r1, _ := CanReachAvoiding(li.fn, a, isU, isB); !r1 {
+			continue
+		}
+		if r2, _ := CanReachAvoiding(li.fn, u, isB, nil); r2 {
+			return false
+		}
+	}
+	return true
+}
+
+// fieldStorePred matches a Store whose address is a FieldAddr of the given field.
+func fieldStorePred(f *types.Var) instrPred {
+	return func(in ssa.Instruction) bool {
+		s, ok := in.(*ssa.Store)
+		if !ok {
+			return false
+		}
+		fa, ok := s.Addr.(*ssa.FieldAddr)
+		return ok && fieldVar(fa.X.Type(), fa.Field) == f
+	}
+}
+
+// fieldLoadPred matches a load through a FieldAddr of the given field.
+func fieldLoadPred(f *types.Var) instrPred {
+	return func(in ssa.Instruction) bool {
+		u, ok := in.(*ssa.UnOp)
+		if !ok || u.Op != token.MUL {
+			return false
+		}
+		fa, ok := u.X.(*ssa.FieldAddr)
+		return ok && fieldVar(fa.X.Type(), fa.Field) == f
+	}
 }
 
 // firstInstr returns the first instruction of fn (with nested closures when deep)
